@@ -69,7 +69,11 @@ func (x *c20SX) stmt(s ast.Stmt, st *c20St) []*c20St {
 	case *ast.ReturnStmt:
 		return x.returnStmt(s, st)
 	case *ast.RangeStmt:
-		return x.rangeStmt(s, st)
+		x.labels = append(x.labels, x.pendingLabel)
+		x.pendingLabel = ""
+		out := x.rangeStmt(s, st)
+		x.labels = x.labels[:len(x.labels)-1]
+		return out
 	case *ast.DeferStmt:
 		// A deferred call runs after the results are fixed; it is not part of the model. It must not hide
 		// a request or a call into the package.
@@ -82,16 +86,30 @@ func (x *c20SX) stmt(s ast.Stmt, st *c20St) []*c20St {
 		return []*c20St{st}
 	case *ast.BranchStmt:
 		switch {
-		case s.Tok == token.CONTINUE && s.Label == nil:
+		case s.Tok == token.CONTINUE:
 			st.ctl = c20cCont
-		case s.Tok == token.BREAK && s.Label == nil:
+		case s.Tok == token.BREAK:
 			st.ctl = c20cBrk
 		default:
 			st.abort(s, "`%s` is not among the understood statements", x.srcOf(s))
 		}
+		if s.Label != nil && st.ctl != c20cAbort {
+			st.lbl = s.Label.Name
+		}
 		return []*c20St{st}
+	case *ast.LabeledStmt:
+		switch s.Stmt.(type) {
+		case *ast.ForStmt, *ast.RangeStmt:
+			x.pendingLabel = s.Label.Name
+			return x.stmt(s.Stmt, st)
+		}
 	case *ast.ForStmt:
-		if out, ok := x.indexLoop(s, st); ok {
+		label := x.pendingLabel
+		x.pendingLabel = ""
+		x.labels = append(x.labels, label)
+		out, ok := x.indexLoop(s, st)
+		x.labels = x.labels[:len(x.labels)-1]
+		if ok {
 			return out
 		}
 		if why := x.opaqueOrLocalCallIn(s); why != "" {
@@ -276,6 +294,9 @@ func (x *c20SX) returnStmt(s *ast.ReturnStmt, st *c20St) []*c20St {
 				it.st.abort(s, "`%s` yields %d value(s) for %d result(s)", x.srcOf(s), len(vs), want)
 				out = append(out, it.st)
 				continue
+			}
+			for i := range vs {
+				vs[i] = x.toIface(vs[i], x.frame().sig.Results().At(i).Type())
 			}
 			it.st.ctl, it.st.ret, it.st.retAt = c20cRet, vs, s
 		}
